@@ -77,11 +77,10 @@ func flagTest(mm *core.MapModel, v ssa.Value) (ok, resizingOnTrue bool) {
 			x, y = y, x
 		}
 		k, isConst := core.ConstInt(y)
-		addr, isLoad := atomicLoadAddr(x)
+		a, isLoad := atomicLoadPath(x)
 		if !isConst || !isLoad {
 			return false, false
 		}
-		a := core.Addr(addr)
 		if a.Owner != mm.Name || a.Field != mm.FlagF {
 			return false, false
 		}
@@ -114,8 +113,7 @@ func tableTest(mm *core.MapModel, v ssa.Value, table ssa.Value) (ok, newerOnTrue
 	}
 	if b, isB := v.(*ssa.BinOp); isB && (b.Op == token.EQL || b.Op == token.NEQ) {
 		for _, pair := range [][2]ssa.Value{{b.X, b.Y}, {b.Y, b.X}} {
-			if addr, isLoad := atomicLoadAddr(pair[0]); isLoad {
-				a := core.Addr(addr)
+			if a, isLoad := atomicLoadPath(pair[0]); isLoad {
 				if a.Owner == mm.Name && a.Field == mm.TableF {
 					same := core.StripConv(pair[1]) == core.StripConv(table)
 					return true, (b.Op == token.NEQ) != neg, same
@@ -193,6 +191,34 @@ func classifyRet0(r *Run, cf *CoreFlow, v ssa.Value, s CS) string {
 		return "fast"
 	}
 	switch x := v.(type) {
+	case *ssa.Phi:
+		// a merge of result temporaries: under the constant mode only the edges whose branch is feasible count
+		reach := cf.Spec.Reachable(cf.MM.Core)
+		res := ""
+		for i, e := range x.Edges {
+			pred := x.Block().Preds[i]
+			if !reach[pred] {
+				continue
+			}
+			feasible := false
+			for _, sb := range cf.Spec.Succs(pred) {
+				if sb == x.Block() {
+					feasible = true
+				}
+			}
+			if !feasible {
+				continue
+			}
+			c := classifyRet0(r, cf, e, s)
+			if res == "" {
+				res = c
+			} else if res != c {
+				return "other:phi of " + res + " and " + c
+			}
+		}
+		if res != "" {
+			return res
+		}
 	case *ssa.Const:
 		if x.Value == nil || isZeroConst(x) {
 			return "zero"
@@ -276,10 +302,14 @@ func coreFlow(r *Run, mm *core.MapModel, sp core.Spec) *CoreFlow {
 			}
 		}
 		if cv, ok := in.(*ssa.Convert); ok && cf.TableVal == nil {
-			if addr, ok := atomicLoadAddr(cv.X); ok {
-				if a := core.Addr(addr); a.Owner == mm.Name && a.Field == mm.TableF {
-					cf.TableVal = cv
-				}
+			if a, ok := atomicLoadPath(cv.X); ok && a.Owner == mm.Name && a.Field == mm.TableF {
+				cf.TableVal = cv
+			}
+		}
+		if cl, ok := in.(*ssa.Call); ok && cf.TableVal == nil && core.NamedOf(cl.Type()) == mm.TableT {
+			// table obtained through an accessor helper
+			if a, ok := atomicLoadPath(cl); ok && a.Owner == mm.Name && a.Field == mm.TableF {
+				cf.TableVal = cl
 			}
 		}
 	})
@@ -292,7 +322,7 @@ func coreFlow(r *Run, mm *core.MapModel, sp core.Spec) *CoreFlow {
 		return -1
 	}
 	reachedCalls := map[ssa.CallInstruction]bool{}
-	m := &core.Machine[CS]{P: r.P, Fn: f, Spec: sp, Init: CS{Site: -1, Loaded: -1, Del: -1}}
+	m := &core.Machine[CS]{P: r.P, Fn: f, Spec: sp, Init: CS{Site: -1, Loaded: -1, Del: -1}, Inline: helperInline(r)}
 	m.Step = func(ctx *core.Ctx[CS], s CS, in ssa.Instruction) []CS {
 		if ev := r.M.LockEventOf(in); ev != nil && ev.Class == "bucket" {
 			if ev.Acquire {
@@ -313,7 +343,7 @@ func coreFlow(r *Run, mm *core.MapModel, sp core.Spec) *CoreFlow {
 		case *ssa.UnOp:
 			if x.Op == token.MUL {
 				if a := core.Addr(x.X); isBucketOwner(r, a.Owner) && r.M.IsSharedWord(a) {
-					if fi := unpublishedAt(r, f, x.X, in, 0); !fi.OK {
+					if fi := unpublishedAt(r, in.Parent(), x.X, in, 0); !fi.OK {
 						isSlotAccess = true
 					}
 				}
@@ -321,14 +351,14 @@ func coreFlow(r *Run, mm *core.MapModel, sp core.Spec) *CoreFlow {
 		case ssa.CallInstruction:
 			if _, addr, ok := core.AtomicOp(x); ok {
 				if a := core.Addr(addr); isBucketOwner(r, a.Owner) {
-					if fi := unpublishedAt(r, f, addr, in, 0); !fi.OK {
+					if fi := unpublishedAt(r, in.Parent(), addr, in, 0); !fi.OK {
 						isSlotAccess = true
 					}
 				}
 			}
 		}
 		if kind, addr := slotWordWrite(r, in); kind != "" {
-			if fi := unpublishedAt(r, f, addr, in, 0); !fi.OK {
+			if fi := unpublishedAt(r, in.Parent(), addr, in, 0); !fi.OK {
 				isSlotAccess = true
 				if !s.Lock {
 					ctx.Report(in, "P5", "bucket word (%s) written without holding the bucket lock", core.Addr(addr).Key())
@@ -359,8 +389,11 @@ func coreFlow(r *Run, mm *core.MapModel, sp core.Spec) *CoreFlow {
 		}
 		c, isCall := in.(ssa.CallInstruction)
 		if isCall {
-			if _, isGo := in.(*ssa.Go); !isGo && fnParam != nil && c.Common().Value == ssa.Value(fnParam) {
+			if _, isGo := in.(*ssa.Go); !isGo && fnParam != nil && ctx.Resolve(c.Common().Value) == ssa.Value(fnParam) {
 				reachedCalls[c] = true
+				if siteIdx(c) < 0 {
+					cf.FnCalls = append(cf.FnCalls, c) // call site inside an inlined helper
+				}
 				if !s.Lock {
 					ctx.Report(in, "F2", "user function called without holding the bucket lock")
 				} else if s.Valid != 2 {
@@ -404,7 +437,7 @@ func coreFlow(r *Run, mm *core.MapModel, sp core.Spec) *CoreFlow {
 				} else {
 					ctx.Report(in, "S1", "counter delta is not a constant")
 				}
-				if core.StripConv(args[0]) != core.StripConv(cf.TableVal) {
+				if core.StripConv(ctx.Resolve(core.StripConv(args[0]))) != core.StripConv(cf.TableVal) {
 					ctx.Report(in, "S1", "counter update goes to a table other than the one validated and modified by this attempt")
 				}
 				if cal == mm.AddPlain {
@@ -485,18 +518,8 @@ func coreFlow(r *Run, mm *core.MapModel, sp core.Spec) *CoreFlow {
 			}
 			// next == nil
 			for _, pair := range [][2]ssa.Value{{b.X, b.Y}, {b.Y, b.X}} {
-				if core.IsNilConst(pair[1]) {
-					var addr ssa.Value
-					if a, isA := atomicLoadAddr(pair[0]); isA {
-						addr = a
-					} else if u, isU := core.StripConv(pair[0]).(*ssa.UnOp); isU && u.Op == token.MUL {
-						addr = u.X
-					}
-					if addr != nil {
-						if k, _ := slotKind(r, addr); k == "link" && onTrue == eqOnTrue {
-							s.ChainEnd = true
-						}
-					}
+				if core.IsNilConst(pair[1]) && linkValue(r, pair[0], 0) && onTrue == eqOnTrue {
+					s.ChainEnd = true
 				}
 			}
 		}
